@@ -1,7 +1,9 @@
 package fsm
 
 import (
+	"errors"
 	"fmt"
+	"strings"
 	"math/rand/v2"
 	"sort"
 	"sync"
@@ -260,9 +262,29 @@ func c10World(t *testing.T, p c10Params, instants *[]int64) rt.Result {
 		}
 		wasUp := x.mon.Up()
 		before := w.Now()
-		if p.Stop == "Close" {
+		switch p.Stop {
+		case "Close":
 			w.Close()
-		} else {
+		case "ListenerFail":
+			// the listener fails: Serve must stop every peer as on Close and return that error
+			w.Lis.Fail(errors.New("injected accept failure"))
+			for i := 0; i < 5; i++ {
+				if ret, _ := w.ServeResult(); ret {
+					break
+				}
+				w.Settle()
+			}
+			ret, err := w.ServeResult()
+			if !ret {
+				w.Violate("%s Serve did not return after its listener failed", desc)
+			} else if err == nil || !strings.Contains(err.Error(), "injected accept failure") {
+				w.Violate("%s Serve returned %v, want the listener error that stopped it", desc, err)
+			}
+			before = w.Now() // the time the return took is not judged for this stop kind
+			if m := w.Mon(x.ps.Addr); m != nil {
+				m.Seal("Serve (listener failure)")
+			}
+		default:
 			if err := w.DeletePeer(x.ps.Addr); err != nil {
 				w.Violate("%s DeletePeer returned %v", desc, err)
 			}
@@ -352,7 +374,7 @@ func TestC10(t *testing.T) {
 	// (i) quiesced stops: every step of every script x stop kind x seeds
 	for _, sc := range c10Scripts {
 		for k := range sc.steps {
-			for _, stop := range []string{"Close", "DeletePeer"} {
+			for _, stop := range []string{"Close", "DeletePeer", "ListenerFail"} {
 				for s := 0; s < seeds; s++ {
 					p := c10Params{Script: sc.name, Stop: stop, Step: k, Seed: uint64(idx)*6364136223846793005 + c.Seed, Hook: hz.HookVSleep}
 					if s%4 == 3 {
